@@ -16,6 +16,7 @@ import (
 )
 
 type World struct {
+	tags []TagDecl
 	repo      string
 	fset      *token.FileSet
 	prog      *ssa.Program
@@ -132,6 +133,7 @@ func (w *World) addSpec(sf *SpecFile) {
 	for n, t := range sf.Types {
 		w.specTypes[n] = t
 	}
+	w.tags = append(w.tags, sf.Tags...)
 	w.axioms = append(w.axioms, sf.Axioms...)
 	for range sf.Axioms {
 		w.axiomPkg = append(w.axiomPkg, sf.PkgName)
@@ -392,4 +394,47 @@ func (w *World) isDeterministic(fn *ssa.Function) bool {
 		return true
 	}
 	return false
+}
+
+// tagObligations: syntactic obligations "field X of struct T carries exactly this tag" for the given property.
+func (w *World) tagObligations(prop string) *FuncResult {
+	res := &FuncResult{Fn: "struct-tags", StrLits: map[string]string{}}
+	for _, td := range w.tags {
+		hit := false
+		for _, p := range td.Serves {
+			if p == prop {
+				hit = true
+			}
+		}
+		if !hit {
+			continue
+		}
+		parts := strings.Split(td.Path, ".")
+		got, found := "", false
+		if len(parts) == 3 {
+			for _, pkg := range w.prog.AllPackages() {
+				if pkg.Pkg.Name() != parts[0] {
+					continue
+				}
+				obj := pkg.Pkg.Scope().Lookup(parts[1])
+				if obj == nil {
+					continue
+				}
+				if st, ok := obj.Type().Underlying().(*types.Struct); ok {
+					for i := 0; i < st.NumFields(); i++ {
+						if st.Field(i).Name() == parts[2] {
+							got, found = strings.Join(strings.Fields(st.Tag(i)), " "), true
+						}
+					}
+				}
+			}
+		}
+		goal := "false"
+		if found && got == td.Want {
+			goal = "true"
+		}
+		res.Obls = append(res.Obls, &Obl{Name: "tag{" + td.Path + "}", Goal: goal, Kind: "tag", Fn: "struct-tags", Prop: []string{prop}})
+		res.Notes = append(res.Notes, "struct tags are compared syntactically; their meaning is govalidator's / yaml's (assumed)")
+	}
+	return res
 }
